@@ -1180,7 +1180,7 @@ class EtreeElementNode(ElementNode):
             return ''.join(etree_iter_strings(self.value, normalize=True))
 
         return ''.join(etree_iter_strings(self.value)) or \
-            getattr(self.xsd_element, 'value_constraint', None) or ''
+            not self.nilled and getattr(self.xsd_element, 'value_constraint', None) or ''
 
     @property
     def iter_typed_values(self) -> Iterator[ta.AtomicType]:
@@ -1190,12 +1190,10 @@ class EtreeElementNode(ElementNode):
             yield UntypedAtomic(''.join(etree_iter_strings(self.value)))
         elif self.xsd_type.is_element_only():
             return
-        elif self.value.get(XSI_NIL) and getattr(self.xsd_type.parent, 'nillable', None):
-            return
+        elif self.nilled:
+            return  # a nilled element has an empty typed value
         elif self.value.text is not None:
             yield from get_atomic_sequence(self.xsd_type, self.value.text, self.nsmap)
-        elif self.value.get(XSI_NIL) in ('1', 'true'):
-            yield ''
         else:
             value = getattr(self.xsd_element, 'value_constraint', None)
             yield from get_atomic_sequence(self.xsd_type, value or '')
